@@ -82,6 +82,7 @@ def _bases():
         "poly": {"kind": "hand", "name": "nested", "K": 2, "input": "poly2"},
         "poly1": {"kind": "hand", "name": "kron3", "K": 1, "input": "poly2"},
         "nary": {"kind": "hand", "name": "nary-sum", "K": 2, "input": "embedding"},
+        "clamp": {"kind": "hand", "name": "nested", "K": 2, "input": "embedding", "weights": "clamp01"},
     }
 
 
@@ -119,6 +120,10 @@ def _all(tier):
     pipe("cat3", ("square",), ("integrate", None), ("conjugate",))
     pipe("poly", ("square",))
     pipe("poly", ("conjugate",))
+    # parameter graphs with operator nodes whose configuration has falsy values (clamp at 0)
+    pipe("clamp", ("integrate", None), clampcore=True)
+    pipe("clamp", ("square",), clampcore=True)
+    pipe("clamp", ("conjugate",), clampcore=True)
     return out
 
 
@@ -134,7 +139,7 @@ def _is_core(d):
         ("square", "cat-logits", "nested"), ("square", "embedding", "had3"), ("square", "gaussian-lp", "nested"), ("square", "poly2", "nested"), ("square", "embedding", "nary-sum"),
         ("conjugate", "cat-logits", "nested"), ("conjugate", "embedding", "had3"), ("conjugate", "gaussian-lp", "nested"), ("conjugate", "poly2", "nested"),
         ("differentiate", "poly2", "nested"), ("evidence", "cat-logits", "nested"), ("concatenate", "cat-logits", "nested"),
-    } and (ops[0][0] != "integrate" or ops[0][1] is None or base["name"] == "nested")
+    } and (ops[0][0] != "integrate" or ops[0][1] is None or base["name"] == "nested") or bool(d.get("clampcore"))
 
 
 def cases(tier, seed):
@@ -181,7 +186,7 @@ def cases(tier, seed):
 
 def _fix(d):
     # derivatives take negative values: not representable in the real log-space semiring
-    if d["semiring"] == "lse-sum" and (any(o[0] == "differentiate" for o in d["circuit"]["ops"]) or str(d["circuit"]["base"].get("input", "")).startswith("poly")):
+    if d["semiring"] == "lse-sum" and (any(o[0] == "differentiate" for o in d["circuit"]["ops"]) or str(d["circuit"]["base"].get("input", "")).startswith("poly") or d["circuit"]["base"].get("weights") == "clamp01"):
         d = dict(d)
         d["semiring"] = "complex-lse-sum"
     return d
